@@ -39,3 +39,26 @@ let int_of_nat (n : nat) =
   let rec go acc n = match n with O -> acc | S m -> go (acc + 1) m in
   go 0 n
 
+
+(* decimal strings <-> inductive numbers (through lists of base-10^9 limbs would be faster; the
+   pure driver is only used for spot checks) *)
+let z_of_string (s : string) : coq_Z =
+  let neg = String.length s > 0 && s.[0] = '-' in
+  let s = if neg then String.sub s 1 (String.length s - 1) else s in
+  let ten = z_of_int 10 in
+  let acc = ref Z0 in
+  String.iter (fun c -> acc := BinInt.Z.add (BinInt.Z.mul !acc ten) (z_of_int (Char.code c - 48))) s;
+  if neg then BinInt.Z.opp !acc else !acc
+let string_of_z (z : coq_Z) : string =
+  let ten = z_of_int 10 in
+  let rec go z acc =
+    if z = Z0 then acc
+    else
+      let (q, r) = BinInt.Z.div_eucl z ten in
+      go q (string_of_int (int_of_z r) ^ acc) in
+  match z with
+  | Z0 -> "0"
+  | Zpos _ -> go z ""
+  | Zneg p -> "-" ^ go (Zpos p) ""
+let string_of_pos (p : positive) = string_of_z (Zpos p)
+let pos_of_string s = match z_of_string s with Zpos p -> p | _ -> Coq_xH
